@@ -26,6 +26,7 @@ CONSTANTS
   AllowNested = FALSE
   OthersCall = "never"
   KeepPagesWritable = FALSE
+  TrampFlushed = TRUE
   UserCalls = TRUE
   MaxUserCalls = 3
   InstallKinds = {"jump"}
